@@ -295,7 +295,9 @@ func (p *FSM) Update(updates []sm.Entry) ([]sm.Entry, error) {
 			return nil, err
 		}
 
-		if len(res.Responses) > 0 {
+		// A command without responses (e.g. a transaction whose executed branch is empty)
+		// still has to report its revision, only the no-op command has nothing to say.
+		if _, noop := cmd.(commandDummy); !noop {
 			bts, err := res.MarshalVT()
 			if err != nil {
 				return nil, err
